@@ -568,6 +568,10 @@ func shouldRunOnCurrentPlatform(platforms []*ast.Platform) bool {
 		return true
 	}
 	for _, p := range platforms {
+		// A null entry in the Taskfile decodes to a nil element
+		if p == nil {
+			continue
+		}
 		if (p.OS == "" || p.OS == runtime.GOOS) && (p.Arch == "" || p.Arch == runtime.GOARCH) {
 			return true
 		}
